@@ -35,7 +35,7 @@ def _cfg(work, name, consts, ops, mode, emit, sl=0, nsl=1):
 def run_part(prop, tier, res, findings, work, map_ops, edit_ops, relevant, plans=None):
     """Adds the Textgrid-level exploration for `prop` to res; returns number of events judged."""
     sz = SIZES[tier]
-    vectors = []
+    vectors = common.LazyVectors()
     design_fail = []
     jobs = []
     if map_ops:
@@ -55,48 +55,71 @@ def run_part(prop, tier, res, findings, work, map_ops, edit_ops, relevant, plans
             res.add_tlc(r)
             if common.tlc_failed(r):
                 design_fail.append(r["out"][-4000:])
-            vectors.extend(common.parse_json_lines(r["out"]))
+            vectors.extend_from(r["out"])
+            r["out"] = r["out"][-4000:]
     if design_fail:
         sys.stderr.write(design_fail[0])
         raise common.MachineryError("TLC reports that TgImpl violates TgProp at design level (or TLC failed)")
     plans = plans or ([("dy", "ascii"), ("dec", "uni")] if tier == "quick" else [("dy", "ascii"), ("dec", "uni"), ("c7", "quote")])
-    events = G.replay(vectors, plans, 0)
+    # events are judged batch by batch and dropped (the thorough tier's two and a half million events do not fit in memory
+    # next to anything else running on the machine); `gen` is the number generated so far, which is what seeds the variants
+    st = dict(gen=0, judged=0, first=None, last=None)
+
+    def flush(events):
+        st["gen"] += len(events)
+        events, bad = T.split_broken(events)
+        for e in bad:
+            res.violations.append((prop + "_api_call_sequence_crashed_outside_the_call_under_test", e))
+        for e in events:
+            e["id"] = st["judged"]
+            st["judged"] += 1
+        verdicts, nval, cmd = common.validate_traces("Trace_Tg", events, work, chunk=10000)
+        if cmd not in res.cmds:
+            res.cmds.append(cmd)
+        res.traces += nval
+        res.evaluations += len(events)
+        for ev in events:
+            key = (ev["op"], tuple(sorted((k, v) for k, v in ev["args"].items() if isinstance(v, (str, bool)))), ev["st"],
+                   len(ev["pre"]["tiers"]), ev["post"] != ev["pre"] or ev["ret"]["lo"] != -2)
+            if ev["pre"]["tiers"]:
+                res.distinct.add(key)
+        if events:
+            st["first"] = st["first"] or events[0]
+            st["last"] = events[-1]
+        res.judge(events, verdicts, findings, relevant)
+
     nv = len(vectors)
-    ndrift = sum(1 for i, ev in enumerate(events[:nv])
-                 if not ev.get("broken") and (vectors[i]["st"], vectors[i]["ret"], vectors[i]["post"]) != (ev["st"], ev["ret"], ev["post"]))
+    ndrift = 0
+    BATCH = 200000
+    for k, plan in enumerate(plans):
+        for b0 in range(0, nv, BATCH):
+            chunk = vectors[b0:b0 + BATCH]
+            events = G.replay(chunk, [plan], k * nv + b0)
+            if k == 0:
+                ndrift += sum(1 for v, ev in zip(chunk, events)
+                              if not ev.get("broken") and (v["st"], v["ret"], v["post"]) != (ev["st"], ev["ret"], ev["post"]))
+            flush(events)
+            del events, chunk
     if edit_ops:
         rv = G.rand_edit_vectors(edit_ops, sz["rand"], common.SEED)
-        events += G.replay(rv, [("ms", "ascii")], len(events))
+        flush(G.replay(rv, [("ms", "ascii")], st["gen"]))
         # reference timestamps exactly maxDifference apart are decided exactly only on the dyadic grid
-        events += G.replay([v for v in rv if v["op"] == "alignTg"], [("dy", "ascii"), ("far", "ascii")], len(events))
+        flush(G.replay([v for v in rv if v["op"] == "alignTg"], [("dy", "ascii"), ("far", "ascii")], st["gen"]))
     if map_ops:
-        events += G.map_histories(sz["hist"], common.SEED, len(events))
+        flush(G.map_histories(sz["hist"], common.SEED, st["gen"]))
         # spec -> code along behaviours: random walks of the TLC model (full bounds) replayed on live Textgrid objects
         sim_cfg = _cfg(work, "tg_sim", dict(sz["full"], Depth=6), map_ops, "map", False)
         beh, rs = common.simulate_behaviours("MC_Tg", sim_cfg, work, sz["sim"], 13)
         res.transitions += rs["generated"]
-        sim_events, sdrift = G.sim_histories(beh, len(events))
-        events += sim_events
+        sim_events, sdrift = G.sim_histories(beh, st["gen"])
         res.notes.setdefault("tg", {}).update(dict(simulated_behaviours=len(beh), simulated_steps=len(sim_events), simulated_drift=sdrift))
-    events, bad = T.split_broken(events)
-    for e in bad:
-        res.violations.append((prop + "_api_call_sequence_crashed_outside_the_call_under_test", e))
-    for i, e in enumerate(events):
-        e["id"] = i
-    verdicts, nval, cmd = common.validate_traces("Trace_Tg", events, work, chunk=10000)
-    res.cmds.append(cmd)
-    res.traces += nval
-    res.evaluations += len(events)
-    for ev in events:
-        key = (ev["op"], tuple(sorted((k, v) for k, v in ev["args"].items() if isinstance(v, (str, bool)))), ev["st"],
-               len(ev["pre"]["tiers"]), ev["post"] != ev["pre"] or ev["ret"]["lo"] != -2)
-        if ev["pre"]["tiers"]:
-            res.distinct.add(key)
-    for ev in events[:1] + events[-1:]:
-        res.add_sample({k: ev[k] for k in ("op", "args", "pre", "argt", "st", "ret", "post", "emb")})
-    res.judge(events, verdicts, findings, relevant)
+        flush(sim_events)
+        del sim_events
+    for ev in [st["first"], st["last"]]:
+        if ev is not None:
+            res.add_sample({k: ev[k] for k in ("op", "args", "pre", "argt", "st", "ret", "post", "emb")})
     res.notes.setdefault("tg", {}).update(dict(sizes=sz, enumerated_vectors=nv, impl_drift=ndrift))
-    return len(events)
+    return st["judged"]
 
 
 def apalache_inductive(work):
